@@ -23,6 +23,7 @@ import vlib
 sys.path.insert(0, os.path.join(vlib.VERIF, "gen"))
 import progen  # noqa: E402
 import render  # noqa: E402
+import detproj  # noqa: E402
 
 KINDS = [("ao", "-Fao"), ("fm", "-Ffm"), ("c", "-Fc"), ("lsp", "-Flsp"), ("java", "-Fjava")]
 KIND_NAMES = [k for k, _ in KINDS] + ["msg"]
@@ -63,12 +64,14 @@ class Input(object):
 
 
 class Group(object):
-    def __init__(self, gid, inputs, opts=()):
+    def __init__(self, gid, inputs, opts=(), batch_only=False, comp=None):
         self.gid = gid
         self.inputs = inputs
         self.opts = list(opts)
         self.cls = inputs[0].cls
         self.midk = False         # generated programs: also run under forced schedules with 50 <= k < 1000
+        self.batch_only = batch_only   # a batch composition of the family: only run as one invocation (inv = batch)
+        self.comp = comp          # the BATCH record of DetCfg it realises
 
 
 ILL_TYPED = [  # appended to a rendered program: each line adds a diagnostic
@@ -79,6 +82,140 @@ ILL_TYPED = [  # appended to a rendered program: each line adds a diagnostic
     'vbad4: SingleInteger == 3; vbad4 := 4;',
     'import from NoSuchDomainAnywhere;',
 ]
+
+
+# --------------------------------------------------------------------------
+# the batch family (DetCfg!FileKinds): two representatives of every kind, all derived from the seed
+
+SENSOR = ('#if C08FlagA\nprint << "C08FlagA is asserted in this file" << newline;\n#endif\n'
+          '#if C08FlagB\nprint << "C08FlagB is asserted in this file" << newline;\n#endif\n')
+HEADERS = {"A": ["c08hdrone.h", "c08hdrtwo.h", "<math.h>"], "B": ["c08hdrtwo.h", "c08hdrthree.h", "<stdlib.h>", "c08hdrone.h"]}
+STUB_HEADERS = ["c08hdrone.h", "c08hdrtwo.h", "c08hdrthree.h"]
+
+
+def _hdr(h):
+    return 'C "%s"' % h if h.startswith("<") else 'C("%s")' % h
+
+
+def _fam_foreign(rnd, which, rep):
+    hs = list(HEADERS[which])
+    if rep == 2:
+        hs.reverse()
+    lines = ['#include "axllib"', SENSOR.rstrip("\n"), "import from SingleInteger, String;"]
+    calls = []
+    for n, h in enumerate(hs):
+        f1, f2 = "c08%s%d_%da" % (which.lower(), rep, n), "c08%s%d_%db" % (which.lower(), rep, n)
+        lines.append("import {\n  %s: SingleInteger -> SingleInteger;\n  %s: (SingleInteger, String) -> SingleInteger;\n} from Foreign %s;"
+                     % (f1, f2, _hdr(h)))
+        calls.append('%s(%d) + %s(%d, "%s")' % (f1, rnd.randrange(1000), f2, rnd.randrange(1000), "s%d" % rnd.randrange(10 ** 6)))
+    lines.append("print << %s << newline;" % " + ".join(calls))
+    return "\n".join(lines) + "\n"
+
+
+def _fam_fuse(rnd, rep):
+    h = ["c08hdrtwo.h", "c08hdrone.h"][rep - 1]
+    return ('#include "axllib"\n' + SENSOR + "import from SingleInteger, String;\n"
+            "import { c08use%d: (SingleInteger, SingleInteger) -> SingleInteger } from Foreign %s;\n"
+            "import { c08plain%d: String -> SingleInteger } from Foreign C;\n"
+            'g(x: SingleInteger): SingleInteger == c08use%d(x, %d) + c08plain%d "%s";\nprint << g %d << newline;\n'
+            % (rep, _hdr(h), rep, rep, rnd.randrange(1000), rep, "u%d" % rnd.randrange(10 ** 6), rnd.randrange(100)))
+
+
+def _fam_lits(rnd, rep):
+    lines = ['#include "axllib"', SENSOR.rstrip("\n"), "SI ==> SingleInteger;", "BI ==> Integer;",
+             "import from SI, BI, String, DoubleFloat, Character;"]
+    uses = []
+    n = 14 + 6 * rep
+    for i in range(n):
+        k = rnd.randrange(5)
+        if k == 0:
+            lines.append('s%d: String := "%s";' % (i, "".join(rnd.choice("abcdefghijklmnopqrstuvwxyz 0123456789-+*/") for _ in range(rnd.randrange(1, 40)))))
+            uses.append("s%d" % i)
+        elif k == 1:
+            lines.append("b%d: BI := %d@BI;" % (i, rnd.randrange(10 ** 20, 10 ** (21 + rnd.randrange(30)))))
+            uses.append("b%d" % i)
+        elif k == 2:
+            lines.append("k%d: SI := %d@SI;" % (i, rnd.randrange(2 ** 30)))
+            uses.append("k%d" % i)
+        elif k == 3:
+            lines.append("d%d: DoubleFloat := %d.%d;" % (i, rnd.randrange(1000), rnd.randrange(1, 10 ** 6)))
+            uses.append("d%d" % i)
+        else:
+            lines.append('c%d: Character := char "%s";' % (i, rnd.choice("abcdefghijkXYZ0123")))
+            uses.append("c%d" % i)
+    # the same literal more than once: a pool keyed by content must not remember an earlier file
+    lines.append('t1: String := "shared literal"; t2: String := "shared literal"; t3: BI := 340282366920938463463374607431768211456@BI;')
+    lines.append("print << %s << t1 << t2 << t3 << newline;" % ' << " " << '.join(uses))
+    return "\n".join(lines) + "\n"
+
+
+def _fam_prag(rnd, rep):
+    a, b = ("C08FlagA", "C08FlagB") if rep == 1 else ("C08FlagB", "C08FlagA")
+    return ('#include "axllib"\n#assert %s\n#assert %s\n#unassert %s\n#int verbose\n' % (a, b, b) + SENSOR +
+            "import from SingleInteger;\n#pile\nh(x: SingleInteger): SingleInteger ==\n  y := x + %d\n  y * %d\n#endpile\n"
+            'print << h %d << newline;\n#libraryDir "/c08/no/such/libdir%d"\n#includeDir "/c08/no/such/incdir%d"\n#assert C08FlagLate%d\n'
+            % (rnd.randrange(100), 1 + rnd.randrange(9), rnd.randrange(100), rep, rep, rep))
+
+
+def family_files(seed, tiny_corpus):
+    """(kind, rep) -> Input for every slot of DetCfg!Slots."""
+    rnd = random.Random(seed * 31 + 5)
+    notry = [f for f in progen.ALL_FEATURES if f != "try"]
+    progs = progen.generate((seed + 21) % 1000003, 4, notry)
+
+    def prog_text(i):
+        t = render.render(progs[i])
+        return t.replace('#include "axllib"\n', '#include "axllib"\n' + SENSOR, 1)
+    texts = {}
+    tc = sorted(tiny_corpus, key=lambda c: c[0])
+    picks = rnd.sample(tc, 2)
+    for rep in (1, 2):
+        texts[("tiny", rep)] = picks[rep - 1][1]
+        texts[("clean", rep)] = prog_text(rep - 1)
+        texts[("lits", rep)] = _fam_lits(rnd, rep)
+        texts[("fhdrA", rep)] = _fam_foreign(rnd, "A", rep)
+        texts[("fhdrB", rep)] = _fam_foreign(rnd, "B", rep)
+        texts[("fuse", rep)] = _fam_fuse(rnd, rep)
+        texts[("prag", rep)] = _fam_prag(rnd, rep)
+    texts[("err", 1)] = prog_text(2).rstrip("\n") + "\n" + "\n".join(rnd.sample(ILL_TYPED, 3)) + "\n"
+    # a syntax error (the parser recovers and goes on) before a type error
+    texts[("err", 2)] = ('#include "axllib"\n' + SENSOR + "import from SingleInteger;\nw1: SingleInteger := (3 + ;\n"
+                         'w2: SingleInteger := 4;\nprint << w2 << newline;\n')
+    out = {}
+    for (kind, rep), t in texts.items():
+        origin = "family:%s%d" % (kind, rep) + (":" + os.path.relpath(picks[rep - 1][0], vlib.REPO) if kind == "tiny" else "")
+        out[(kind, rep)] = Input("f_%s%d.as" % (kind, rep), t, "fam", origin)
+    return out
+
+
+def family_groups(seed, tier, batches, tiny_corpus):
+    """The pool (every representative, compiled separately and in pool order) and the batch compositions chosen for the tier
+    from the BATCH export of DetCfg: every two-file batch, and a seeded sample of the longer ones."""
+    files = family_files(seed, tiny_corpus)
+    rnd = random.Random(seed * 17 + 3)
+    kinds = sorted({k for k, _ in files})
+    if {b["kind"] for c in batches for b in c["files"]} != set(kinds):
+        raise vlib.MachineryError("the file kinds of DetCfg (%s) are not the kinds the generator knows (%s)" %
+                                  (sorted({b["kind"] for c in batches for b in c["files"]}), kinds))
+    groups = []
+    pool = [files[(k, r)] for r in (1, 2) for k in kinds]
+    for i in range(0, len(pool), 4):
+        groups.append(Group("fampool%d" % (i // 4), pool[i:i + 4]))
+    by_len = {}
+    for c in batches:
+        by_len.setdefault(len(c["files"]), []).append(c)
+    for v in by_len.values():
+        v.sort(key=lambda c: c["id"])
+    n3, n4 = (14, 10) if tier == "quick" else (len(by_len.get(3, [])), 700)
+    scale = float(os.environ.get("VERIF_C08_SCALE", "1"))
+    if tier != "quick" and scale != 1:
+        n3, n4 = int(n3 * scale), int(n4 * scale)
+    chosen = list(by_len.get(2, []))
+    chosen += rnd.sample(by_len.get(3, []), min(n3, len(by_len.get(3, []))))
+    chosen += rnd.sample(by_len.get(4, []), min(n4, len(by_len.get(4, []))))
+    for c in chosen:
+        groups.append(Group("fam:" + c["id"], [files[(f["kind"], f["rep"])] for f in c["files"]], batch_only=True, comp=c))
+    return groups
 
 
 def _safe(name):
@@ -103,8 +240,9 @@ def corpus_files():
     return out
 
 
-def make_inputs(seed, tier):
-    """Returns the list of groups for a tier.  Everything is derived from `seed`."""
+def make_inputs(seed, tier, batches=None):
+    """Returns the list of groups for a tier.  Everything is derived from `seed`.  `batches` = the BATCH records exported
+    by TLC from DetCfg (None: no batch family, for callers that only want the ordinary groups)."""
     rnd = random.Random(seed)
     cf = corpus_files()
     tiny = [c for c in cf if c[2] and len(c[1]) < (2500 if tier == "quick" else 6000)]
@@ -174,6 +312,8 @@ def make_inputs(seed, tier):
         add("cq3_", cin[len(cin) - third:len(cin) - third // 2], ["-Q3"])
         add("cq0_", cin[len(cin) - third // 2:], ["-Q0"])
     add("corpuserr", [corpus_input(c, "corpus", "ce") for c in c_err[:max(3, n_corpus // 3)]], ["-DTestErrorsToo"])
+    if batches:
+        groups += family_groups(seed, tier, batches, [c for c in cf if c[2] and len(c[1]) < 2500 and "TestErrorsToo" not in c[1]])
     return groups
 
 
@@ -192,24 +332,23 @@ def out_file(d, stem, kind):
 
 def split_batch_stream(text, names):
     """The driver prints "\\n<name>:\\n" before it starts each file of a multi-file invocation; the messages of a
-    file are what follows its header up to the next header.  Returns name -> bytes (None if the header is missing)."""
-    pos = {}
+    file are what follows its header up to the next header.  `names` may name a file more than once (it is then compiled
+    more than once).  Returns a list parallel to `names`: bytes, or None where the header is missing."""
+    pos = []
     start = 0
     for n in names:
         h = b"\n" + n.encode() + b":\n"
         i = text.find(h, start)
         if i < 0:
-            pos[n] = None
+            pos.append(None)
             continue
-        pos[n] = (i, i + len(h))
+        pos.append((i, i + len(h)))
         start = i + len(h)
-    out = {}
-    order = [n for n in names if pos[n] is not None]
-    for k, n in enumerate(order):
-        end = pos[order[k + 1]][0] if k + 1 < len(order) else len(text)
-        out[n] = text[pos[n][1]:end]
-    for n in names:
-        out.setdefault(n, None)
+    out = [None] * len(names)
+    order = [k for k in range(len(names)) if pos[k] is not None]
+    for j, k in enumerate(order):
+        end = pos[order[j + 1]][0] if j + 1 < len(order) else len(text)
+        out[k] = text[pos[k][1]:end]
     return out
 
 
@@ -239,6 +378,34 @@ class Runner(object):
         self.hangs = 0
         self.hang_list = []
         self.skipped_after_hangs = 0
+        # projections (DetCfg!Projections) are functions of the bytes of an output: computed once per distinct content
+        self.proj_cache = {}      # (kind, sha256 of the content) -> {projection: bytes}
+        self.stubs = os.path.join(workdir, "c08-stub-headers")
+        os.makedirs(self.stubs, exist_ok=True)
+        for h in STUB_HEADERS:
+            open(os.path.join(self.stubs, h), "w").close()
+        self.nproj = 0
+        self.ngcc = 0
+
+    def projections(self, kind, data, path):
+        k = (kind, hashlib.sha256(data).digest())
+        with self.lock:
+            p = self.proj_cache.get(k)
+        if p is not None:
+            return p
+        syntax = None
+        if kind == "c":
+            syntax = detproj.gcc_syntax(path, [os.path.join(vlib.REPO, "aldor/aldor/src"), self.stubs])
+            if syntax is None:
+                raise vlib.MachineryError("gcc -fsyntax-only did not finish on %s" % path)
+        p = detproj.project(kind, data, syntax)
+        if sorted(p) != sorted(detproj.PROJECTIONS[kind]):
+            raise vlib.MachineryError("projections of %s: %s computed, %s declared" % (kind, sorted(p), detproj.PROJECTIONS[kind]))
+        with self.lock:
+            self.proj_cache[k] = p
+            self.nproj += 1
+            self.ngcc += 1 if kind == "c" else 0
+        return p
 
     NS_SCRIPT = '%s --bind "$1" "$2" && cd "$2" && shift 2 && exec "$@"'
 
@@ -272,7 +439,7 @@ class Runner(object):
         d = os.path.join(top, CWD[c["cwd"]])
         os.makedirs(d)
         texts = {i.name: i for i in group.inputs}
-        for n in files:
+        for n in set(files):
             with open(os.path.join(d, n), "w", encoding="latin-1") as fh:
                 fh.write(texts[n].text)
         env = {} if c["env"] == "empty" else polluted_env(c["rep"])
@@ -311,50 +478,63 @@ class Runner(object):
             out = (out or b"") + b"\0<hang: no exit within the time limit>"
             err = err or b""
         tail = b"\0stderr:" + err + (b"\0signal %d" % -rc if rc < 0 else b"")
-        msgs = {}
+        # msgs: one entry per position of `files` (a file named twice is compiled twice and reports twice)
         if len(files) == 1:
-            msgs[files[0]] = out + tail
-            reached = list(files)
+            msgs = [out + tail]
+            nreached = 1
         else:
             seg = split_batch_stream(out, files)
-            reached = [n for n in files if seg[n] is not None]
-            for n in reached:
-                msgs[n] = seg[n] + (tail if n == reached[-1] else b"\0stderr:")
-            if rc == 0 or not reached:
+            got = [k for k in range(len(files)) if seg[k] is not None]
+            msgs = [None] * len(files)
+            for k in got:
+                msgs[k] = seg[k] + (tail if k == got[-1] else b"\0stderr:")
+            if rc == 0 or not got:
                 # a successful invocation must have announced every file: a missing one is observed as absent
-                for n in files:
-                    msgs.setdefault(n, None)
-                reached = list(files)
+                nreached = len(files)
             else:
                 # the invocation failed (fatal error, abort) inside its last announced file: the files after it were
                 # never started, which the failing file's own diagnostics and the exit status already show
-                last = files.index(reached[-1])
-                for n in files[:last]:
-                    msgs.setdefault(n, None)
-                reached = list(files[:last + 1])
-        obs = {}
+                nreached = got[-1] + 1
+        reached = list(files[:nreached])
+        want_proj = c["inv"] == "batch" or conf["dist"] == 0
+        obs = []                 # (file, kind, view, digest); view "text" = the whole output
         dtag = seen_dir.encode()
-        for n in reached:
-            for kind in KIND_NAMES:
-                if kind == "msg":
-                    data = msgs[n]
-                else:
-                    p = out_file(d, n[:-3], kind)
-                    data = open(p, "rb").read() if os.path.isfile(p) else None
+
+        def keep(key, dg, data):
+            kk = (key, tuple(dg))
+            with self.lock:
+                if kk not in self.kept and len(self.kept) < 20000 and data is not None:
+                    variants = sum(1 for (k2, _) in self.kept if k2 == key)
+                    if variants < 3:
+                        kp = os.path.join(self.keep, "%s.%d" % (key.replace("|", ".").replace(":", "-"), variants))
+                        with open(kp, "wb") as fh:
+                            fh.write(data)
+                        self.kept[kk] = kp
+        last_pos = {n: k for k, n in enumerate(reached)}
+        for k, n in enumerate(reached):
+            # every occurrence reports its messages; the files on disk are those of the last occurrence
+            data = msgs[k]
+            if data is not None and dtag in data:
+                self.paths_recorded.add("msg")
+            dg = ABSENT if data is None else digest_words(data)
+            obs.append((n, "msg", "text", dg))
+            keep("%s|msg" % n, dg, data)
+            if last_pos[n] != k:
+                continue
+            for kind in KIND_NAMES[:-1]:
+                pth = out_file(d, n[:-3], kind)
+                data = open(pth, "rb").read() if os.path.isfile(pth) else None
                 if data is not None and dtag in data:
                     self.paths_recorded.add(kind)
                 dg = ABSENT if data is None else digest_words(data)
-                obs[(n, kind)] = dg
-                key = "%s|%s" % (n, kind)
-                kk = (key, tuple(dg))
-                with self.lock:
-                    if kk not in self.kept and len(self.kept) < 6000 and data is not None:
-                        variants = sum(1 for (k2, _) in self.kept if k2 == key)
-                        if variants < 3:
-                            kp = os.path.join(self.keep, "%s.%s.%d" % (n, kind, variants))
-                            with open(kp, "wb") as fh:
-                                fh.write(data)
-                            self.kept[kk] = kp
+                obs.append((n, kind, "text", dg))
+                keep("%s|%s" % (n, kind), dg, data)
+                if want_proj:
+                    pr = self.projections(kind, data, pth) if data is not None else {}
+                    for v in detproj.PROJECTIONS[kind]:
+                        pdg = digest_words(pr[v]) if v in pr else ABSENT
+                        obs.append((n, kind, v, pdg))
+                        keep("%s|%s:%s" % (n, kind, v), pdg, pr.get(v))
         shutil.rmtree(top, ignore_errors=True)
         with self.lock:
             self.nruns += 1
